@@ -3,4 +3,4 @@ Require Import Nib.C17.AnteFacts Nib.C02.Model Nib.Gen.C02Facts.
 
 Definition current_cfg : cfg :=
   cfg_of_facts nonevm_chain evm_chain ext_switch guard_prevent_eth guard_authz wasm_handler sig_gas_consumer
-               registered_ext_options eth_signers_from_signature.
+               registered_ext_options eth_signers_from_signature verify_fee_of_total.
